@@ -61,8 +61,7 @@ Definition step_s (h : ah) (o : sop) : sres :=
   match o with
   | SMul c k f =>
       match f with
-      | FRev => if is_numpy_kind k then SNotHist else match imul_k h c k with Ok x => SOk x | Err _ => SRefused end
-      | _ => match imul_k h c k with Ok x => SOk x | Err _ => SRefused end
+      | _ => match imul_k h c k with Ok x => SOk x | Err _ => SRefused end      (* c * h = h * c also for numpy scalars (/repo fix of F20b) *)
       end
   | SDiv c k _ => match idiv_k h c k with Ok x => SOk x | Err _ => SRefused end
   | SNorm inplace percent =>
